@@ -630,7 +630,12 @@ def setter_writes(ctx):
         f = P.func(q)
         res.saw(f)
         fe = eff.fe[f.qual]
-        extra = [st for st in fe.stores if st.attr not in allowed]
+        extra = [st for st in fe.stores if st.attr not in allowed and not (
+            # carrying the conic over to a geometry object created in this
+            # call (plane <-> conic conversion) is not an edit of the conic
+            q == 'Optic.set_radius' and st.attr == 'k' and
+            st.value is not None and
+            unparse(st.value) == 'surface.geometry.k')]
         for st in extra:
             res.fail(ctx.finding('SETTER-WRITES', f, st.stmt,
                                  f'{q} also writes {st.attr}: it must change '
@@ -669,16 +674,47 @@ def setter_writes(ctx):
         defs = {n.targets[0].id: unparse(n.value) for n in ast.walk(f.node)
                 if isinstance(n, ast.Assign) and
                 isinstance(n.targets[0], ast.Name)}
+        conic_src = kw.get('conic', a[2] if len(a) > 2 else None)
+        conic_src = defs.get(conic_src, conic_src)
+        carried = conic_src in ("getattr(surface.geometry, 'k', 0)",
+                                "getattr(surface.geometry, 'k', 0.0)",
+                                'surface.geometry.k')
         ok = defs.get(csname) == 'surface.geometry.cs' and \
             (kw.get('radius') == 'value' or (len(a) > 1 and a[1] == 'value')) \
-            and (kw.get('conic', a[2] if len(a) > 2 else '0') in ('0', '0.0'))
+            and carried
+    # only a Plane is replaced: any other geometry keeps its type (and its
+    # coefficients) and just gets the new radius
+    conv = [n for n in ast.walk(f.node) if isinstance(n, ast.If) and ctor and
+            any(c_ is ctor[0] for b in n.body for c_ in ast.walk(b))]
+    if conv and unparse(conv[0].test) != 'isinstance(surface.geometry, Plane)':
+        ok = False
     if ok:
-        res.ok('set_radius on a plane: StandardGeometry(same cs, value, 0)')
+        res.ok('set_radius on a plane: StandardGeometry(same cs, value, the '
+               'conic the surface already has)')
     else:
         res.fail(ctx.finding('SETTER-WRITES', f, f.node,
                              'set_radius on a plane surface does not keep the '
-                             'coordinate system / use the given radius',
+                             'coordinate system and conic constant / use the '
+                             'given radius (a conic set while the surface was '
+                             'flat is reset)',
                              construct='set_radius plane arm'))
+    # an infinite radius is a plane: StandardGeometry(radius=inf) evaluates
+    # inf - inf in its intersection and every real ray through the lens
+    # becomes nan (this is what resetting a radius perturbation on a flat
+    # surface does)
+    infarm = [n for n in ast.walk(f.node) if isinstance(n, ast.If) and
+              'np.isinf(value)' in unparse(n.test) and any(
+                  isinstance(c, ast.Call) and unparse(c.func) == 'Plane'
+                  for b in n.body for c in ast.walk(b))]
+    if infarm:
+        res.ok('set_radius(inf) on a conic surface makes it a plane')
+    else:
+        res.fail(ctx.finding(
+            'SETTER-WRITES', f, f.node,
+            'set_radius stores an infinite radius into a StandardGeometry: '
+            'its intersection formula evaluates inf - inf and all real rays '
+            'become nan (e.g. after the reset of a radius perturbation on a '
+            'flat surface)', construct='set_radius infinite radius'))
     idx = [n for n in ast.walk(P.func('Optic.set_asphere_coeff').node)
            if isinstance(n, ast.Subscript) and unparse(n.value).endswith('.c')]
     if idx and unparse(idx[0].slice) == 'aspher_coeff_idx':
@@ -896,14 +932,19 @@ def solve(ctx):
     if off is not None and last is not None and isinstance(last.op, ast.Sub) \
             and unparse(last.value) == 'offset' and \
             'surfaces[-1].geometry.cs.z' in unparse(last.target):
-        # new image plane at distance d = -offset: y + u d = 0
-        ok = rat_eq(A('YA[-1]') + A('UA[-1]') * (-off), ZERO)
+        # new image plane at distance d = -offset: y + u d = 0 with u the
+        # slope of the ray ARRIVING at the image surface, i.e. the record of
+        # the surface before it (records hold the state after a surface, and
+        # the image surface refracts into its own post medium)
+        ok = rat_eq(A('YA[-1]') + A('UA[-2]') * (-off), ZERO)
     if ok:
-        res.ok('image_solve: ya[-1] + ua[-1] * (-offset) = 0, image z -= offset')
+        res.ok('image_solve: ya[-1] + ua[-2] * (-offset) = 0, image z -= offset')
     else:
         res.fail(ctx.finding('SOLVE', g, g.node,
                              'image_solve does not move the image to the '
-                             'paraxial focus', construct='image_solve law'))
+                             'paraxial focus of the arriving ray (slope record '
+                             '[-2]; [-1] is the slope after the image '
+                             'surface)', construct='image_solve law'))
     m = P.func('SolveManager.add')
     src = Code(P, m)
     if 'solve.apply()' in src and 'self.solves.append(solve)' in src:
@@ -976,9 +1017,16 @@ WIRING_SITES += [
      {'optic': 'optic', 'surface_idx': 'surface_idx', '*args': '*',
       '**kwargs': '**'}),
     ('Optic.set_radius', 'StandardGeometry.__init__',
-     {'cs': 'coordinate_system', 'value': 'radius', '0': 'conic'}),
+     {'cs': 'coordinate_system', 'value': 'radius', 'conic': 'conic'}),
 ]
 _ID = lambda *names: {n: n for n in names}       # noqa: E731
+# coefficient tables are float arrays whatever literals they were written
+# with: an integer table (np.atleast_2d([[0, 0], [0, 0]])) truncates every
+# coefficient later written into it by a variable or perturbation
+_FLOAT_TABLE = ('np.atleast_2d(np.array(coefficients, dtype=float))',
+                'np.atleast_2d(np.asarray(coefficients, dtype=float))',
+                'np.atleast_2d(coefficients).astype(float)',
+                'np.array(coefficients, dtype=float, ndmin=2)')
 INIT_STORES = {
     'Pickup.__init__': (_ID('optic', 'source_surface_idx', 'attr_type',
                             'target_surface_idx', 'scale', 'offset'), None),
@@ -995,12 +1043,15 @@ INIT_STORES = {
         _ID('tol', 'max_iter'),
         'super().__init__(coordinate_system, radius, conic)'),
     'EvenAsphere.__init__': (
-        {'c': 'coefficients'},
+        {'c': ('list(coefficients)', 'np.array(coefficients, dtype=float)',
+               'copy.copy(coefficients)', 'coefficients.copy()',
+               '[float(c) for c in coefficients]')},
         'super().__init__(coordinate_system, radius, conic, tol, max_iter)'),
     'PolynomialGeometry.__init__': (
-        {}, 'super().__init__(coordinate_system, radius, conic, tol, max_iter)'),
+        {'c': _FLOAT_TABLE},
+        'super().__init__(coordinate_system, radius, conic, tol, max_iter)'),
     'ChebyshevPolynomialGeometry.__init__': (
-        _ID('norm_x', 'norm_y'),
+        dict(_ID('norm_x', 'norm_y'), c=_FLOAT_TABLE),
         'super().__init__(coordinate_system, radius, conic, tol, max_iter)'),
     'Surface.__init__': (_ID('geometry', 'material_pre', 'material_post',
                              'is_stop', 'aperture', 'coating', 'bsdf',
@@ -1027,7 +1078,9 @@ def init_stores(ctx):
                     st.targets[0], ast.Attribute) and \
                     unparse(st.targets[0].value) == 'self':
                 got[st.targets[0].attr] = unparse(st.value)
-        bad = {a: (v, got.get(a)) for a, v in want.items() if got.get(a) != v}
+        bad = {a: (v, got.get(a)) for a, v in want.items()
+               if (got.get(a) not in v if isinstance(v, tuple)
+                   else got.get(a) != v)}
         sups = [unparse(c) for c in ast.walk(f.node)
                 if isinstance(c, ast.Call) and
                 unparse(c.func) == 'super().__init__']
@@ -1057,7 +1110,7 @@ def init_stores(ctx):
                                      for a, (e, n) in sorted(bad.items())),
                 construct=f'{q} stores'))
         else:
-            res.ok(f'{q}: ' + ', '.join(f'{a}<-{v}' for a, v in want.items())
+            res.ok(f'{q}: ' + ', '.join(f'{a}<-{got.get(a)}' for a in want)
                    + (f'; {sup}' if sup else ''))
     return res
 
